@@ -64,10 +64,9 @@ __CPROVER_ensures(0)
 int backup_copy_file_contract(const char *filename, struct vector_UINT8 *data)
 __CPROVER_requires(__CPROVER_is_fresh(filename, 1) && V8_FRESH(data) && V8_size(data) < (1UL << 32))
 __CPROVER_requires(!g_bk_opened_for_write && !g_bk_closed && g_md5file_line[127] == 0)
-/* The md5 file, if present, is either foreign (does not start with a hex digit) or has uncrustify's own format: 32 hex
- * digits followed by a non-hex character.  Latent hazards outside this precondition (DESIGN 9.5): more than 32 leading
- * hex digits overflow md5_str_in[33]; fewer than 32 make memcmp read uninitialised bytes of md5_str_in. */
-__CPROVER_requires((g_N == 0 || g_N == 32) && !is_hex(g_md5file_line[g_N]) && !g_fgets_ok)
+/* The first line of the md5 file, if there is one, is ARBITRARY text (a foreign, truncated or corrupted file included): g_N is the
+ * index of its first character that is not a hex digit (any value up to the end of the 128-byte line buffer). */
+__CPROVER_requires(g_N >= 0 && g_N <= 127 && (g_N < 32 ==> !is_hex(g_md5file_line[g_N])) && !g_fgets_ok)
 __CPROVER_requires((0 < g_N ==> is_hex(g_md5file_line[0])) && (1 < g_N ==> is_hex(g_md5file_line[1])) && (2 < g_N ==> is_hex(g_md5file_line[2])) && (3 < g_N ==> is_hex(g_md5file_line[3])) && (4 < g_N ==> is_hex(g_md5file_line[4])) && (5 < g_N ==> is_hex(g_md5file_line[5])) && (6 < g_N ==> is_hex(g_md5file_line[6])) && (7 < g_N ==> is_hex(g_md5file_line[7])) && (8 < g_N ==> is_hex(g_md5file_line[8])) && (9 < g_N ==> is_hex(g_md5file_line[9])) && (10 < g_N ==> is_hex(g_md5file_line[10])) && (11 < g_N ==> is_hex(g_md5file_line[11])) && (12 < g_N ==> is_hex(g_md5file_line[12])) && (13 < g_N ==> is_hex(g_md5file_line[13])) && (14 < g_N ==> is_hex(g_md5file_line[14])) && (15 < g_N ==> is_hex(g_md5file_line[15])) && (16 < g_N ==> is_hex(g_md5file_line[16])) && (17 < g_N ==> is_hex(g_md5file_line[17])) && (18 < g_N ==> is_hex(g_md5file_line[18])) && (19 < g_N ==> is_hex(g_md5file_line[19])) && (20 < g_N ==> is_hex(g_md5file_line[20])) && (21 < g_N ==> is_hex(g_md5file_line[21])) && (22 < g_N ==> is_hex(g_md5file_line[22])) && (23 < g_N ==> is_hex(g_md5file_line[23])) && (24 < g_N ==> is_hex(g_md5file_line[24])) && (25 < g_N ==> is_hex(g_md5file_line[25])) && (26 < g_N ==> is_hex(g_md5file_line[26])) && (27 < g_N ==> is_hex(g_md5file_line[27])) && (28 < g_N ==> is_hex(g_md5file_line[28])) && (29 < g_N ==> is_hex(g_md5file_line[29])) && (30 < g_N ==> is_hex(g_md5file_line[30])) && (31 < g_N ==> is_hex(g_md5file_line[31])))
 __CPROVER_assigns(g_fgets_ok, g_newpath_kind, g_bk_opened_for_write, g_bk_closed, g_bk_closed_ok, g_bk_ptr, g_bk_len, g_fwrite_ret, g_bk_written, g_exit_status, errno)
 /* md5 match => EX_OK and the backup is not touched */
